@@ -21,6 +21,7 @@ import (
 
 var c11Keys = []string{"b2", "b5", "b8"}
 var c11Pos = []string{"a", "b2", "b3", "b5", "b6", "b8", "c"}
+var c11PosExt = []string{"a", "b", "b2", "b5", "b50", "b51", "b6", "b8", "c"}
 var c11Vals = []string{"", "x", "y"} // "" = absent
 
 type c11Op struct {
@@ -375,48 +376,57 @@ func c11Exec(j *mc.Job) *mc.JobResult {
 				}
 			}
 		}
-		// iterators: every (start,end), both directions, limits 0..2
-		env.reset(st)
-		for _, s := range c11Pos {
-			for _, e := range c11Pos {
-				if s == e {
-					continue
-				}
-				want := st.interval(s, e)
-				for limit := 0; limit <= 2; limit++ {
-					it, err := env.kv.Iter(ctx, []byte(s), []byte(e), 0, uint64(limit))
-					if err != nil {
-						fail("iter-error", "Iter(%s,%s): %v", s, e, err)
+		// iterators: every (start,end), both directions, limits 0..2; a second pass adds a stored key that
+		// extends another stored key (b50 after b5) and bounds that are proper prefixes of stored keys
+		for variant := 0; variant < 2; variant++ {
+			ist, pos := st, c11Pos
+			if variant == 1 {
+				ist = st.clone()
+				ist["b50"] = "x"
+				pos = c11PosExt
+			}
+			env.reset(ist)
+			for _, s := range pos {
+				for _, e := range pos {
+					if s == e {
 						continue
 					}
-					got, derr := drain(it, 10)
-					it.Close()
-					res.Execs++
-					dir := "forward"
-					if s > e {
-						dir = "reverse"
-					}
-					if derr != nil {
-						fail("iter-next-error|"+dir, "state %v Iter(%s,%s,limit %d): %v after %v", st, s, e, limit, derr, got)
-						continue
-					}
-					ok := len(got) <= len(want)
-					for i := 0; ok && i < len(got); i++ {
-						ok = got[i] == want[i]
-					}
-					if limit == 0 {
-						ok = ok && len(got) == len(want)
-					} else if len(want) >= limit {
-						ok = ok && len(got) >= limit
-					} else {
-						ok = ok && len(got) == len(want)
-					}
-					if !ok {
-						sig := "iter|" + dir
-						if len(got) > 0 && (len(want) == 0 || got[0] != want[0]) {
-							sig += "|first-element-outside-interval"
+					want := ist.interval(s, e)
+					for limit := 0; limit <= 2; limit++ {
+						it, err := env.kv.Iter(ctx, []byte(s), []byte(e), 0, uint64(limit))
+						if err != nil {
+							fail("iter-error", "Iter(%s,%s): %v", s, e, err)
+							continue
 						}
-						fail(sig, "state %v Iter(start=%s,end=%s,limit=%d) yields %v, the interval holds %v", st, s, e, limit, got, want)
+						got, derr := drain(it, 10)
+						it.Close()
+						res.Execs++
+						dir := "forward"
+						if s > e {
+							dir = "reverse"
+						}
+						if derr != nil {
+							fail("iter-next-error|"+dir, "state %v Iter(%s,%s,limit %d): %v after %v", ist, s, e, limit, derr, got)
+							continue
+						}
+						ok := len(got) <= len(want)
+						for i := 0; ok && i < len(got); i++ {
+							ok = got[i] == want[i]
+						}
+						if limit == 0 {
+							ok = ok && len(got) == len(want)
+						} else if len(want) >= limit {
+							ok = ok && len(got) >= limit
+						} else {
+							ok = ok && len(got) == len(want)
+						}
+						if !ok {
+							sig := "iter|" + dir
+							if len(got) > 0 && (len(want) == 0 || got[0] != want[0]) {
+								sig += "|first-element-outside-interval"
+							}
+							fail(sig, "state %v Iter(start=%s,end=%s,limit=%d) yields %v, the interval holds %v", ist, s, e, limit, got, want)
+						}
 					}
 				}
 			}
@@ -471,7 +481,7 @@ func init() {
 	mc.Register(&mc.Property{
 		ID:     "C11",
 		Level:  "model_checking",
-		Rule:   "explicit-state search with a sorted map as reference model: all 27 states of 3 keys x {absent,x,y}; from every state every single-operation batch (put-if-absent, CAS x 3 expectations incl. a missing key, put, delete), every ordered two-operation batch, Get, Del, DelCurrent through a fresh and a stale iterator (direct and inside a batch), every iterator (start,end) over 7 positions in both directions with limits 0..2, and the snapshot test (iterator opened, advanced, each batch committed, drained); on memkv, badger, tikv-mock and each behind the metrics wrapper; result class and full contents compared after every transition",
+		Rule:   "explicit-state search with a sorted map as reference model: all 27 states of 3 keys x {absent,x,y}; from every state every single-operation batch (put-if-absent, CAS x 3 expectations incl. a missing key, put, delete), every ordered two-operation batch, Get, Del, DelCurrent through a fresh and a stale iterator (direct and inside a batch), every iterator (start,end) over 7 positions in both directions with limits 0..2 - and again over 9 positions including proper prefixes of stored keys with a stored key that extends another one added -, and the snapshot test (iterator opened, advanced, each batch committed, drained); on memkv, badger, tikv-mock and each behind the metrics wrapper; result class and full contents compared after every transition",
 		Assume: []string{"sequential use of one engine instance; engines run free (no scheduler)", "TTL arguments are 0"},
 		Exec:   c11Exec,
 		Drive: func(c *mc.Ctx) {
